@@ -198,7 +198,7 @@ def idempotence_F(run):
     """Requantizing the dequantized tensor with the same scale and zero-point yields the same codes (fp16 quick, fp32 thorough).
     Element chain of the real AffineQuantizer / QBitsDequantizer bodies, bit-precise; per-axis, no grouping (grouping is pure data movement)."""
     dtypes = ["float16"] + (["float32"] if run.tier == "thorough" else [])
-    FT = 240 if run.tier == "quick" else 1800
+    FT = 240 if run.tier == "quick" else 600
     src = """
 def prog(t, qtype, axis, scale, zeropoint):
     q = AffineQuantizer.apply(t, qtype, axis, None, scale, zeropoint)
